@@ -172,7 +172,61 @@ def x_nonascii(field):
     cover("nonascii-" + out.split(":")[0])
 
 
-def x_frame(T, api, ending):
+LOCATIONS = ("", "x", "relative/path", "http://h.example/", "ws:", "ws://", "ws://h.example:99999/", "ws://[::1", "//h.example/x", "wss://h.example:x/",
+             "ws://h.example/ok")
+SETCOOKIES = ("a,b=c", "=v", "a b=c; Domain=x.com", "\x01=1", "a=1; Domain=", "k=v; Domain=x.com; Max-Age=zz", ";;;", "a=\"unterminated", "n=v; Domain=x.com")
+
+
+def x_location(i):
+    """3xx response whose Location is the i-th catalogue value (garbage / foreign scheme / bad port / valid)"""
+    loc = LOCATIONS[i]
+    resp = ("HTTP/1.1 302 Found\r\nLocation: %s\r\n\r\n" % loc).encode()
+    quiet_logging()
+    import websocket._http as H
+    import simnet
+    k = simnet.Kernel(step_budget=2000)
+    net = simnet.Net(k, [{"reject": True}])
+    simnet.install(k, net)  # a redirect target that parses is dialled on the fake network (and rejected there)
+    try:
+        sock = ReqSock(resp)
+        ws = new_ws(None)
+        out = _run(lambda: ws.connect("ws://example.test/r", socket=sock), "Location %r" % loc, sock)
+    finally:
+        k.shutdown()
+        simnet.uninstall()
+    sx.require(out != "returned", "a redirect can never yield a connected object without a new handshake", loc=loc)
+    cover("location")
+
+
+def x_setcookie(i):
+    """valid 101 response carrying the i-th catalogue Set-Cookie value (malformed cookie syntax from the server)"""
+    import base64
+    import hashlib
+    import websocket._handshake as HS
+    quiet_logging()
+    HS.CookieJar.jar.clear()
+    val = SETCOOKIES[i]
+
+    class Srv(ReqSock):
+        def send(self, data):
+            if not self.armed:
+                head = bytes(data).decode("latin-1")
+                key = [l.split(":", 1)[1].strip() for l in head.split("\r\n") if l.lower().startswith("sec-websocket-key")][0]
+                acc = base64.b64encode(hashlib.sha1((key + "258EAFA5-E914-47DA-95CA-C5AB0DC85B11").encode()).digest()).decode()
+                self.response = ("HTTP/1.1 101 Switching Protocols\r\nUpgrade: websocket\r\nConnection: Upgrade\r\nSec-WebSocket-Accept: %s\r\n"
+                                 "Set-Cookie: %s\r\n\r\n" % (acc, val)).encode("latin-1")
+            return ReqSock.send(self, data)
+
+    sock = Srv(b"")
+    ws = new_ws(None)
+    try:
+        out = _run(lambda: ws.connect("ws://example.test/r", socket=sock), "Set-Cookie %r" % val, sock)
+    finally:
+        HS.CookieJar.jar.clear()
+    cover("setcookie-" + out.split(":")[0])
+
+
+def x_frame(T, api, ending, fire=False, skip=False):
     """arbitrary T-byte frame-phase stream followed by end of stream or silence (timeout); the call is retried after a
     timeout like an application would; allowed outcomes: a result, or protocol / payload / connection-closed / timeout"""
     quiet_logging()
@@ -180,7 +234,7 @@ def x_frame(T, api, ending):
                                        WebSocketProtocolException, WebSocketTimeoutException)
     stream = sx.sym_bytes("s", T)
     sock = FakeSock([stream] + (["eof"] if ending == "eof" else ["timeout", "timeout", "eof"]))
-    ws = new_ws(sock, get_mask_key=KeySource([bytes(4)] * 64))
+    ws = new_ws(sock, get_mask_key=KeySource([bytes(4)] * 64), fire_cont_frame=fire, skip_utf8_validation=skip)
     outcomes = []
     for attempt in range(T + 4):
         sx.tick()
@@ -286,6 +340,13 @@ def obligations(tier):
         Obligation("X-resume", x_resume, [dict(form=f, masked=m) for f in (16, 64) for m in (0, 1)],
                    bounds="16-/64-bit length frames with one receive timeout (silence) after every possible number of header bytes, then the rest",
                    must_cover=["resumed"], kernel=["frame_buffer.recv_frame", "recv_length", "recv_mask"]),
+        Obligation("X-frame-cfg", x_frame, [dict(T=t, api="recv", ending="eof", fire=f, skip=s) for t in (3, 4, 5) for (f, s) in ((True, False), (False, True), (True, True))],
+                   bounds="EVERY frame-phase stream of 3..5 bytes through recv() with per-fragment delivery and/or UTF-8 validation switched off",
+                   must_cover=["frame-closed"], budget_s=1800, kernel=["WebSocket.recv", "continuous_frame.extract"]),
+        Obligation("X-location", x_location, [dict(i=i) for i in range(len(LOCATIONS))], bounds="%d Location values (garbage, foreign scheme, bad port, valid) on a 302 response" % len(LOCATIONS),
+                   must_cover=["location"], step_budget=100000, kernel=["WebSocket.connect (redirect)", "_url.parse_url"]),
+        Obligation("X-setcookie", x_setcookie, [dict(i=i) for i in range(len(SETCOOKIES))], bounds="%d malformed / unusual Set-Cookie values on a valid 101 response" % len(SETCOOKIES),
+                   kernel=["_handshake.handshake_response", "SimpleCookieJar.add"]),
         Obligation("X-declared", x_declared, [dict(form=f, api=a) for f in (16, 64) for a in ("recv_frame", "recv")],
                    bounds="ALL declared 16-bit and 64-bit payload lengths (symbolic length field), any first byte", must_cover=["declared"],
                    kernel=["frame_buffer.recv_strict"]),
